@@ -19,6 +19,7 @@ from .. import common
 from ..e2 import run as e2run
 from ..e2.values import *
 from ..e3 import extract as X, po as PO, replay as RP, ndstream as ND
+from ..e2.checklib import run_lemmas
 
 PKG = common.PKG
 F_PARSE = "(*%s.internalParsedJson).parseMessage" % PKG
@@ -963,6 +964,14 @@ def run(ctx):
     if getattr(ctx, "q2_copy_only", False):
         run_order(ctx, prog, 2, copy_only=True)
         return
+    if not only or any(o.startswith("U1") for o in only):
+        # what the stream machinery relies on from the per-chunk parser (parseMessage is uninterpreted above): a chunk with leading /
+        # trailing blank lines around its documents parses like the documents themselves — the real synchronous parseMessage in
+        # ndjson mode on 2-token chunks (C08's lemma, run under this id as the composition step)
+        from .. import lemmas_stage2
+        lvl = ctx.level
+        run_lemmas(ctx, [l for l in lemmas_stage2.u1_lemmas("quick", ndjson=(1,), havoc=(0,)) if ".K2." in l.name])
+        ctx.level = lvl
     if not only or any(o in only for o in ("Q2.order", "Q2.term", "Q2.race", "Q2.copy")):
         t0 = time.time()
         run_order(ctx, prog, Cmax)
